@@ -184,7 +184,7 @@ Proof.
     pose proof (zlen_nonneg le).
     case_if; [exact I|].
     case_if.
-    + pose proof (parse_exts_safe (S (length le)) (be16 p0 p1 =? profile_two_byte) le (n + 4) (n + 4 + ext_len)
+    + pose proof (parse_exts_safe (S (length le)) (ext_form (be16 p0 p1) =? profile_two_byte) le (n + 4) (n + 4 + ext_len)
                    [] [] buf Hok ltac:(lia) Hle ltac:(lia) ltac:(lia) ltac:(constructor) ltac:(constructor)) as Hp.
       destruct (parse_exts _ _ le (n + 4) (n + 4 + ext_len) [] []) as [[[[exts os] nf] rest]| |]; auto.
       destruct Hp as (H1 & H2 & H3 & H4). cbn [bind]. unfold header_post.
